@@ -14,9 +14,6 @@ import Cvss.Model.Json
 namespace Cvss.Spec
 open Cvss Cvss.Model
 
-/-- assignment read off a metric map: stated token, or the version's Not Defined token -/
-def assignment (nd : Str) (m : MMap) : Str → Str := fun k => (lookup k m).getD nd
-
 def specScores : AnyObj → List (Option Rat)
   | .o2 o => Spec.V2.scores (assignment c!"ND" o.metrics)
   | .o3 o => Spec.V3.scores o.minor (assignment c!"X" o.orig)
